@@ -10,7 +10,7 @@
    functions (should_close, _release, _get, connection_key ...) come from Generated/ClientConnGen.v. *)
 From AV Require Import Lib.Base Generated.ClientConnGen Model.ClientConn
   Proofs.ClientConnBase Proofs.ClientConnStruct Proofs.ClientConnTagsDef Proofs.ClientConnTagsB
-  Proofs.ClientConnReuse Proofs.ClientConnHeads Proofs.ClientConnWitness.
+  Proofs.ClientConnReuse Proofs.ClientConnHeads Proofs.ClientConnBody Proofs.ClientConnWitness.
 Open Scope N_scope.
 
 (* ---- no mixing ------------------------------------------------------------------------------ *)
@@ -20,7 +20,7 @@ Open Scope N_scope.
    ResponseHandler.is_reusable() the same traces now end differently; they stay here as regression examples.
    W1 - an unsolicited response arrives while the connection idles in the pool: the connection is refused and
    closed by _get, the request runs on a fresh one and every delivery is well tagged (although the quietness
-   hypothesis of C06_no_mix_partial is violated).  corpus/C06/fixed-idle_unsolicited.json. *)
+   quietness hypothesis of C06_pooled_clean_partial is violated).  corpus/C06/fixed-idle_unsolicited.json. *)
 Example C06_idle_unsolicited_fixed : exists s,
   run faithful init tr_idle_unsolicited = Some s /\
   s_idle_parsed s = true /\ s_nconn s = 2 /\ c_phase (s_conn s 0) = PClosed /\
@@ -37,38 +37,33 @@ Example C06_same_read_surplus_fixed : exists s,
 Proof. exact w_same_read_surplus. Qed.
 Print Assumptions C06_same_read_surplus_fixed.
 
-(* FULL, for ALL traces (new with d13503d): every response HEAD a caller is given arrived while that caller's own
-   exchange held the connection - whatever the peer sent while the connection was pooled, after the end of a
-   response in the same read, before the first request, or at any other time.  (This is the statement the two
-   former witnesses refuted: what they delivered to the wrong request was a head.) *)
+(* FULL, for ALL traces and every peer behaviour (new with d13503d; refuted before it): everything every caller is
+   given - response heads and body bytes - arrived while that caller's own exchange held the connection.  Bytes
+   that arrive while the connection is pooled, after the end of a response in the same read (the connection is
+   released in the middle of that data_received call), before the first request on a fresh connection, surplus
+   heads, incomplete lines, garbage, truncated bodies, peer close at any point, cancellations, early releases and
+   upgrades are all inside the quantifier; no hypothesis on the peer or on timing. *)
+Theorem C06_no_mix : forall cf tr s,
+  run cf init tr = Some s -> forall d, In d (s_log s) -> d_tag d = TFlight (d_e d).
+Proof. exact no_mix_all. Qed.
+Print Assumptions C06_no_mix.
+
+(* the same for heads only, by a much smaller invariant (kept as an independent cross-check) *)
 Theorem C06_no_stale_head : forall cf tr s,
   run cf init tr = Some s ->
   forall d, In d (s_log s) -> d_head d = true -> d_tag d = TFlight (d_e d).
 Proof. exact no_stale_head. Qed.
 Print Assumptions C06_no_stale_head.
 
-(* For heads AND body items, for ALL traces, under a hypothesis: if no token was ever handled on a connection
-   that no exchange was holding (s_idle_parsed = false), then everything every caller was given arrived while
-   that caller's own exchange held the connection.
-   PARTIAL for the body items only: the hypothesis is not needed any more for heads (C06_no_stale_head) and the
-   trace validation shows the repaired code refusing every stale connection, but the unconditional statement
-   for body items needs one more invariant (a payload that is still being fed belongs to the exchange holding
-   the connection, also across tokens handled on pooled / closed connections), which is not proved. *)
-Theorem C06_no_mix_partial : forall cf tr s,
-  run cf init tr = Some s -> s_idle_parsed s = false ->
-  forall d, In d (s_log s) -> d_tag d = TFlight (d_e d).
-Proof. exact no_mix_quiet. Qed.
-Print Assumptions C06_no_mix_partial.
-
 (* non-vacuity: a session with three requests, two of them sharing one connection and a third one to
-   another port, satisfies the hypothesis and delivers five items *)
-Example C06_no_mix_partial_example : exists s,
+   another port, delivers five items *)
+Example C06_no_mix_example : exists s,
   run faithful init tr_good = Some s /\
   s_idle_parsed s = false /\ s_tail_surplus s = false /\ s_nconn s = 2 /\
   length (s_log s) = 5%nat /\ forallb well_taggedb (s_log s) = true /\
   c_phase (s_conn s 0) = PIdle /\ c_phase (s_conn s 1) = PClosed.
 Proof. exact w_good. Qed.
-Print Assumptions C06_no_mix_partial_example.
+Print Assumptions C06_no_mix_example.
 
 (* ---- which connections are reused ----------------------------------------------------------- *)
 
@@ -118,8 +113,10 @@ Theorem C06_release_pools_only_clean : forall cf s c arg e,
 Proof. exact release_pools_only_clean. Qed.
 Print Assumptions C06_release_pools_only_clean.
 
-(* Partial, for ALL traces: under the same quietness hypothesis as C06_no_mix_partial every pooled
-   connection stays clean — empty response queue, empty raw tail, parser at a message boundary — so a
+(* Conditional by nature (named _partial for that reason): a peer that talks while the connection is pooled does
+   dirty it - what the property needs is that such a connection is not handed out, which is C06_reuse_only_clean.
+   Under the quietness hypothesis (s_idle_parsed = false: no token was ever handled on a connection that no
+   exchange held) every pooled connection stays clean — empty response queue, empty raw tail, parser at a message boundary — so a
    later request cannot be answered from leftovers. *)
 Theorem C06_pooled_clean_partial : forall cf tr s c,
   run cf init tr = Some s -> s_idle_parsed s = false -> In c (s_pool s) ->
